@@ -499,3 +499,7 @@ PROPS['C10']['kani'] = PROPS['C10']['kani'] + [
       note='every six-byte value returned by an overriding version()'),
 ]
 PROPS['C17']['kani'] = PROPS['C17']['kani'] + K_FILTERED_LEN
+PROPS['C12']['kani'] = PROPS['C12']['kani'] + [
+    H(ROOT + 'dep::dep_k_int_ranges', ['cbor-smol deserialize_u8 / deserialize_i32 (dependency, A8: integer ranges, validated)'], kind='gc',
+      bound='all 3-byte inputs as u8, all 5-byte inputs as i32 (complete for heads up to 4 value bytes)'),
+]
